@@ -73,6 +73,9 @@ def gen_cases(tier, seed):
                                     continue
                                 cases.append(dict(kind="recon", app=app, solver=solver, lamda=lam, batch_size=bs, coord=cf,
                                                   data=data, weights=wts))
+                                if solver == "ADMM" and data == "noisy" and not wts and bs is None:
+                                    cases.append(dict(kind="recon", app=app, solver=solver, lamda=lam, batch_size=bs, coord=cf,
+                                                      data=data, weights=wts, rho=2.0))
     return cases
 
 
@@ -244,6 +247,8 @@ def run_recon(case, seed):
     kw["max_iter"] = {"ConjugateGradient": 300, "GradientMethod": 4000, "PrimalDualHybridGradient": 8000, "ADMM": 300}[eff]
     if eff == "ADMM":
         kw["max_cg_iter"] = 20
+        if case.get("rho"):
+            kw["rho"] = case["rho"]
     y0 = y.copy()
     np.random.seed((seed + 4242) % 2 ** 32)
     if app_name == "SenseRecon":
